@@ -1,3 +1,4 @@
+-- properties: C04 C11
 /-
   C04 / C11 — the Portable Voice Format container (stand-alone L1 model SfModel/Pvf.lean; helpers
   SfProofs/PvfImage.lean, SfProofs/Small2Session.lean).  Property theorems only.
